@@ -65,13 +65,18 @@ def _curves0(rng: Rng, N, m, kind=None):
     return [rng.dyadics(m, -8, 8, 4) for _ in range(N)], kind
 
 
-def _grid(rng: Rng, m):
+def _grid(rng: Rng, m, ties=True):
     lo = rng.choice([0, 0, -1, 1, 100, Fraction(-7, 2), 2**21, Fraction(3, 2**30)])
     # scale sweep over many decades (exact dyadic): wavelengths in metres, day numbers, ...
     scale = rng.choice([1, 1, 2, 364, Fraction(1, 8), Fraction(1, 2**30), Fraction(1, 2**20), 2**20])
     pts = [Fraction(float(p)) for p in rng.grid(m, lo=lo, scale=scale)]   # exactly what NumPy will see
     if any(b <= a for a, b in zip(pts, pts[1:])):                          # offset too large for that spacing
         pts = rng.grid(m, lo=0, scale=scale)
+    if ties and m >= 4 and rng.random() < 0.12:
+        # a sorted grid with a REPEATED abscissa (a jump of the integrand at a knot): still a sorted grid;
+        # the trapezoid rule and its weights are defined and exact there (zero-width interval)
+        k = rng.randint(1, m - 2)
+        pts[k + 1] = pts[k]
     return pts
 
 
@@ -255,6 +260,7 @@ def run_impl(case):
                 out["ip01"] = float(_inner_product(X[0], X[1], np.array(fl(t))))
             if case.get("stand"):
                 out["nsq_stand"] = fd.norm(squared=True, use_argvals_stand=True).tolist()
+                out["n_stand"] = fd.norm(squared=False, use_argvals_stand=True).tolist()
         else:
             s2 = float(F(case["s2"]))
             G = fd.inner_product(noise_variance=s2)
@@ -596,6 +602,16 @@ def oracle(case, impl):
                 bad("cauchy_schwarz", "|<x,y>| > norm(x) norm(y)", "_inner_product")
         if any(x < 0 for x in impl["nsq"]):
             bad("nonneg", "negative squared norm", "DenseFunctionalData.norm")
+        if "nsq_stand" in impl:
+            tq = _Fv(case["t"])
+            L = float(tq[-1] - tq[0])
+            for i, (a2, a1, b2) in enumerate(zip(impl["nsq_stand"], impl["n_stand"], impl["nsq"])):
+                if not _approx(a2, a1 * a1, max(a2, 1e-300), 1e-9):
+                    bad("norm_options", f"norm(squared=True, use_argvals_stand=True) = {a2} is not the square of norm(squared=False, use_argvals_stand=True) = {a1} (obs {i})", "DenseFunctionalData.norm")
+                    break
+                if L > 0 and not _approx(a2 * L, b2, max(b2, 1e-300), 1e-9):
+                    bad("norm_options", f"squared norm on the standardised grid times the domain length {a2 * L} differs from the squared norm {b2} (obs {i})", "DenseFunctionalData.norm")
+                    break
     elif kind == "basis" and "error" not in impl and np.all(np.isfinite(np.array(impl["G"], dtype=float))):
         G = np.array(impl["G"], dtype=float)
         sc = max(np.abs(G).max(), 1e-300)
